@@ -1367,7 +1367,6 @@ func (e *Engine) strIndex(rc *runCtx, st *State, s *StrV, i *term.Term, in ssa.I
 		}
 		return one(st, r)
 	}
-	i8 := term.Extract(i, 7, 0)
 	type run struct{ start, end int } // [start,end)
 	var runs []run
 	for k := 0; k < n; {
@@ -1378,6 +1377,15 @@ func (e *Engine) strIndex(rc *runCtx, st *State, s *StrV, i *term.Term, in ssa.I
 		runs = append(runs, run{k, j})
 		k = j
 	}
+	if len(runs) > 4 || n > 256 {
+		// not a digit table: a decision tree over the index bits (equal sub-ranges collapse)
+		vals := make([]uint64, n)
+		for k := 0; k < n; k++ {
+			vals[k] = bs[k].Val
+		}
+		return one(st, term.LookupConstTable(vals, 8, 0, i))
+	}
+	i8 := term.Extract(i, 7, 0) // n <= 256 here
 	expr := func(r run) *term.Term {
 		if r.end-r.start == 1 {
 			return bs[r.start]
@@ -1405,6 +1413,96 @@ func (e *Engine) sliceOp(rc *runCtx, st *State, fr *frame, x *ssa.Slice) []cont 
 	if lo == nil {
 		lo = c64(0)
 	}
+	// A bound that is one of a few constants chosen by an earlier branch (skip := 0 or 16) is case
+	// split: slices with concrete extents keep stores and copies at concrete indices.
+	if _, isSlice := base.(*SliceV); isSlice || isPtr(base) {
+		if alts := e.splitSmall(st, lo); len(alts) > 1 || (len(alts) == 1 && alts[0].t != lo) {
+			var out []cont
+			for _, a := range alts {
+				out = append(out, e.sliceWith(rc, a.st, fr, x, base, a.t, hi, mx)...)
+			}
+			return out
+		}
+		if hi != nil {
+			if alts := e.splitSmall(st, hi); len(alts) > 1 || (len(alts) == 1 && alts[0].t != hi) {
+				var out []cont
+				for _, a := range alts {
+					out = append(out, e.sliceWith(rc, a.st, fr, x, base, lo, a.t, mx)...)
+				}
+				return out
+			}
+		}
+	}
+	return e.sliceWith(rc, st, fr, x, base, lo, hi, mx)
+}
+
+func isPtr(v Value) bool { _, ok := v.(*Ptr); return ok }
+
+type termAlt struct {
+	st *State
+	t  *term.Term
+}
+
+func hasIte(t *term.Term, budget *int) bool {
+	if *budget <= 0 {
+		return false
+	}
+	*budget--
+	if t.K == term.KIte {
+		return true
+	}
+	for _, a := range t.Args {
+		if hasIte(a, budget) {
+			return true
+		}
+	}
+	return false
+}
+
+// splitSmall: if t is not constant, stems from a merge (contains an ite) and can take at most four
+// values under the path condition, one alternative per value (state forked and constrained, term
+// replaced by the constant); otherwise the single alternative (st, t).
+func (e *Engine) splitSmall(st *State, t *term.Term) []termAlt {
+	same := []termAlt{{st, t}}
+	if t == nil || t.IsConst() || e.Concrete != nil {
+		return same
+	}
+	budget := 64
+	if !hasIte(t, &budget) {
+		return same
+	}
+	asserts := []*term.Term{st.pcTerm()}
+	var vals []uint64
+	for {
+		ans := e.Solver.Check(smt.Query{Asserts: asserts, Values: []*term.Term{t}})
+		if ans.Res == smt.Unsat {
+			break
+		}
+		if ans.Res != smt.Sat || len(vals) == 4 {
+			return same
+		}
+		v := ans.Values[0]
+		vals = append(vals, v)
+		asserts = append(asserts, term.Not(term.Eq(t, term.Const(t.W, v))))
+	}
+	if len(vals) == 0 {
+		return same
+	}
+	var out []termAlt
+	for i, v := range vals {
+		ns := st
+		if i < len(vals)-1 {
+			ns = st.fork()
+		}
+		c := term.Const(t.W, v)
+		ns.assume(term.Eq(t, c))
+		out = append(out, termAlt{ns, c})
+	}
+	e.stats.Forks += len(out) - 1
+	return out
+}
+
+func (e *Engine) sliceWith(rc *runCtx, st *State, fr *frame, x *ssa.Slice, base Value, lo, hi, mx *term.Term) []cont {
 	switch b := base.(type) {
 	case *StrV:
 		if hi == nil {
